@@ -5,6 +5,7 @@ From Coq Require Import Sorting.Permutation.
 From KV Require Import Base.Prelude Base.Xxh32 Model.Codecs Model.Responses Model.ClientState Model.Producer
                        Proofs.C12Facts.
 
+From KV Require Import Proofs.C12Extra.
 Theorem C12_explicit : forall parts cntr topic p key, 0 <= p -> partition parts cntr topic p key = (p, cntr).
 Proof. exact C12Facts.C12_explicit. Qed.
 
@@ -79,3 +80,104 @@ Print Assumptions C12_unknown.
 Print Assumptions C12_unassigned_rejected.
 Print Assumptions C12_rotation_shared_counter_refuted.
 Print Assumptions C12_wrap_refuted.
+
+Theorem C12_assign_counter :
+  forall (parts : list (bytes * pparts)) (cntr : Z) (recs : list record), 0 <= cntr < 4294967296 -> snd (assign parts cntr recs) = (cntr + rot_count parts recs) mod 4294967296.
+Proof. exact (@C12Extra.C12_assign_counter). Qed.
+
+Theorem C12_assign_nth :
+  forall (parts : list (bytes * pparts)) (cntr : Z) (recs : list record) (i : nat) (r : record), 0 <= cntr < 4294967296 -> nth_error recs i = Some r -> nth_error (fst (assign parts cntr recs)) i = Some (fst (choice parts ((cntr + rot_count parts (firstn i recs)) mod 4294967296) r)).
+Proof. exact (@C12Extra.C12_assign_nth). Qed.
+
+Theorem C12_create_state :
+  forall (src : list bytes + Net.client) (calls : list pbuilder_call) (s : Net.st) (p : producer) (s' : Net.st), producer_create src calls s = (Ok p, s') -> p_parts p = producer_state (Net.cs (Net.cl s')) /\ p_cntr p = 0 /\ p_client p = Net.cl s'.
+Proof. exact (@C12Extra.C12_create_state). Qed.
+
+Theorem C12_explicit_out_of_range_rejected_anywhere :
+  forall (s : cstate) (parts : list (bytes * pparts)) (cntr : Z) (recs : list record) (reqs : list (bytes * Requests.produce_tps)) (r : record) (l : list Z), In r recs -> partitions_for s (r_topic r) = Some l -> ulen l <= r_partition r -> fst (send_all_reqs s parts cntr recs reqs) = None.
+Proof. exact (@C12Extra.C12_explicit_out_of_range_rejected_anywhere). Qed.
+
+Theorem C12_explicit_unroutable_rejected_anywhere :
+  forall (s : cstate) (parts : list (bytes * pparts)) (cntr : Z) (recs : list record) (reqs : list (bytes * Requests.produce_tps)) (r : record), In r recs -> 0 <= r_partition r -> find_broker s (r_topic r) (r_partition r) = None -> fst (send_all_reqs s parts cntr recs reqs) = None.
+Proof. exact (@C12Extra.C12_explicit_unroutable_rejected_anywhere). Qed.
+
+Theorem C12_history_explicit :
+  forall (parts : list (bytes * pparts)) (cntr : Z) (recs : list record) (i : nat) (r : record), nth_error recs i = Some r -> 0 <= r_partition r -> nth_error (fst (assign parts cntr recs)) i = Some (r_partition r).
+Proof. exact (@C12Extra.C12_history_explicit). Qed.
+
+Theorem C12_history_keyed :
+  forall (parts : list (bytes * pparts)) (cntr : Z) (recs : list record) (i : nat) (r : record) (ps : pparts), nth_error recs i = Some r -> r_partition r < 0 -> r_key r <> [] -> assoc_bytes (r_topic r) parts = Some ps -> 0 < num_all ps <= 2147483648 -> nth_error (fst (assign parts cntr recs)) i = Some (xxh32 0 (r_key r) mod num_all ps).
+Proof. exact (@C12Extra.C12_history_keyed). Qed.
+
+Theorem C12_history_keyed_total_count :
+  forall (s : cstate) (cntr : Z) (recs : list record) (i : nat) (r : record) (l : list Z), nth_error recs i = Some r -> r_partition r < 0 -> r_key r <> [] -> partitions_for s (r_topic r) = Some l -> 0 < ulen l <= 2147483648 -> nth_error (fst (assign (producer_state s) cntr recs)) i = Some (xxh32 0 (r_key r) mod ulen l).
+Proof. exact (@C12Extra.C12_history_keyed_total_count). Qed.
+
+Theorem C12_history_keyless :
+  forall (parts : list (bytes * pparts)) (cntr : Z) (recs : list record) (i : nat) (r : record) (ps : pparts) (a : Z) (av : list Z), 0 <= cntr < 4294967296 -> nth_error recs i = Some r -> r_partition r < 0 -> r_key r = [] -> assoc_bytes (r_topic r) parts = Some ps -> available_ids ps = a :: av -> nth_error (fst (assign parts cntr recs)) i = Some (nth (Z.to_nat (((cntr + rot_count parts (firstn i recs)) mod 4294967296) mod ulen (a :: av))) (a :: av) a) /\ In (nth (Z.to_nat (((cntr + rot_count parts (firstn i recs)) mod 4294967296) mod ulen (a :: av))) (a :: av) a) (a :: av).
+Proof. exact (@C12Extra.C12_history_keyless). Qed.
+
+Theorem C12_history_unknown :
+  forall (parts : list (bytes * pparts)) (cntr : Z) (recs : list record) (i : nat) (r : record), nth_error recs i = Some r -> r_partition r < 0 -> assoc_bytes (r_topic r) parts = None -> nth_error (fst (assign parts cntr recs)) i = Some (r_partition r).
+Proof. exact (@C12Extra.C12_history_unknown). Qed.
+
+Theorem C12_keyed_total_count :
+  forall (s : cstate) (cntr : Z) (topic : bytes) (p : Z) (k : bytes) (l : list Z), p < 0 -> partitions_for s topic = Some l -> 0 < ulen l <= 2147483648 -> partition (producer_state s) cntr topic p (Some k) = (xxh32 0 k mod ulen l, cntr) /\ 0 <= xxh32 0 k mod ulen l < ulen l.
+Proof. exact (@C12Extra.C12_keyed_total_count). Qed.
+
+Theorem C12_keyless_has_leader_stale_snapshot_refuted :
+  exists (s s' : cstate) (cntr : Z) (r : record) (ps : pparts), r_partition r < 0 /\ r_key r = [] /\ assoc_bytes (r_topic r) (producer_state s) = Some ps /\ available_ids ps <> [] /\ 0 <= cntr /\ find_broker s' (r_topic r) 0 <> None /\ find_broker s' (r_topic r) (fst (choice (producer_state s) cntr r)) = None /\ fst (send_all_reqs s' (producer_state s) cntr [r] []) = None.
+Proof. exact (@C12Extra.C12_keyless_has_leader_stale_snapshot_refuted). Qed.
+
+Theorem C12_rotation_interleaved :
+  forall (parts : list (bytes * pparts)) (cntr : Z) (recs : list record) (t : bytes) (ps : pparts) (av : list Z) (i : nat), assoc_bytes t parts = Some ps -> available_ids ps = av -> av <> [] -> (forall r : record, In r recs -> rotates parts r = true -> r_topic r = t) -> 0 <= cntr -> cntr + rot_count parts recs <= 4294967296 -> Z.of_nat (i + length av) <= rot_count parts recs -> Permutation (firstn (length av) (skipn i (rot_parts parts recs (fst (assign parts cntr recs))))) av.
+Proof. exact (@C12Extra.C12_rotation_interleaved). Qed.
+
+Theorem C12_rotation_interleaved_slots :
+  forall (parts : list (bytes * pparts)) (cntr : Z) (recs : list record) (t : bytes) (ps : pparts) (a : Z) (av : list Z), assoc_bytes t parts = Some ps -> available_ids ps = a :: av -> (forall r : record, In r recs -> rotates parts r = true -> r_topic r = t) -> 0 <= cntr -> cntr + rot_count parts recs <= 4294967296 -> rot_parts parts recs (fst (assign parts cntr recs)) = map (fun j : nat => nth (idx_at cntr (ulen (a :: av)) j) (a :: av) a) (seq 0 (Z.to_nat (rot_count parts recs))).
+Proof. exact (@C12Extra.C12_rotation_interleaved_slots). Qed.
+
+Theorem C12_send_all_counter :
+  forall (p : producer) (recs : list record) (s : Net.st) (cf : list Client.confirm) (p' : producer) (s' : Net.st), producer_send_all p recs s = (Ok (cf, p'), s') -> p_parts p' = p_parts p /\ p_cntr p' = snd (assign (p_parts p) (p_cntr p) recs) /\ fst (send_all_reqs (Net.cs (Net.cl s)) (p_parts p) (p_cntr p) recs []) <> None.
+Proof. exact (@C12Extra.C12_send_all_counter). Qed.
+
+Theorem C12_send_all_is_assign_then_route :
+  forall (s : cstate) (parts : list (bytes * pparts)) (cntr : Z) (recs : list record) (reqs : list (bytes * Requests.produce_tps)), fst (send_all_reqs s parts cntr recs reqs) = Client.produce_reqs s (assigned_msgs recs (fst (assign parts cntr recs))) reqs /\ (fst (send_all_reqs s parts cntr recs reqs) <> None -> snd (send_all_reqs s parts cntr recs reqs) = snd (assign parts cntr recs)).
+Proof. exact (@C12Extra.C12_send_all_is_assign_then_route). Qed.
+
+Theorem C12_send_all_rejects :
+  forall (p : producer) (recs : list record) (s : Net.st), fst (send_all_reqs (Net.cs (Net.cl s)) (p_parts p) (p_cntr p) recs []) = None -> exists s' : Net.st, producer_send_all p recs s = (Err (EKafka KC_UnknownTopicOrPartition), s') /\ Net.trace s' = Net.trace s /\ Net.script s' = Net.script s.
+Proof. exact (@C12Extra.C12_send_all_rejects). Qed.
+
+Theorem C12_send_counter :
+  forall (p : producer) (r : record) (s : Net.st) (p' : producer) (s' : Net.st), producer_send p r s = (Ok p', s') -> p_parts p' = p_parts p /\ p_cntr p' = snd (choice (p_parts p) (p_cntr p) r).
+Proof. exact (@C12Extra.C12_send_counter). Qed.
+
+Theorem C12_unassigned_rejected_anywhere :
+  forall (s : cstate) (parts : list (bytes * pparts)) (cntr : Z) (recs : list record) (reqs : list (bytes * Requests.produce_tps)) (r : record), In r recs -> r_partition r < 0 -> assoc_bytes (r_topic r) parts = None -> fst (send_all_reqs s parts cntr recs reqs) = None.
+Proof. exact (@C12Extra.C12_unassigned_rejected_anywhere). Qed.
+
+Theorem C12_unknown_topic_rejected_anywhere :
+  forall (s : cstate) (parts : list (bytes * pparts)) (cntr : Z) (recs : list record) (reqs : list (bytes * Requests.produce_tps)) (r : record), In r recs -> partitions_for s (r_topic r) = None -> fst (send_all_reqs s parts cntr recs reqs) = None.
+Proof. exact (@C12Extra.C12_unknown_topic_rejected_anywhere). Qed.
+
+Print Assumptions C12_assign_counter.
+Print Assumptions C12_assign_nth.
+Print Assumptions C12_create_state.
+Print Assumptions C12_explicit_out_of_range_rejected_anywhere.
+Print Assumptions C12_explicit_unroutable_rejected_anywhere.
+Print Assumptions C12_history_explicit.
+Print Assumptions C12_history_keyed.
+Print Assumptions C12_history_keyed_total_count.
+Print Assumptions C12_history_keyless.
+Print Assumptions C12_history_unknown.
+Print Assumptions C12_keyed_total_count.
+Print Assumptions C12_keyless_has_leader_stale_snapshot_refuted.
+Print Assumptions C12_rotation_interleaved.
+Print Assumptions C12_rotation_interleaved_slots.
+Print Assumptions C12_send_all_counter.
+Print Assumptions C12_send_all_is_assign_then_route.
+Print Assumptions C12_send_all_rejects.
+Print Assumptions C12_send_counter.
+Print Assumptions C12_unassigned_rejected_anywhere.
+Print Assumptions C12_unknown_topic_rejected_anywhere.
